@@ -4,6 +4,9 @@ package main
 // GOMAXPROCS=1. Protocol on stdin: "RUN <gid> <lo> <hi>"; on stdout:
 //   H <table hash>
 //   B <idx>                                  before each case (flushed)
+//   P <phase>                                 the case entered a phase (flushed): the entry point's own
+//                                             name for composite targets, "use" / "<name>:use" for the
+//                                             use step of an accepted input (use.go)
 //   V <idx> <class> <site> <alloc> <ns> <msg> violation observed in the case
 //   T <idx> <site>                            time budget exceeded; worker exits 3
 //   D <json>                                  chunk finished, statistics
@@ -75,6 +78,7 @@ func msgClass(msg string, limit int) string {
 type caseResult struct {
 	out      outcome
 	panicked bool
+	inUse    bool // the panic came from the use step
 	panicMsg string
 	site     string
 }
@@ -83,6 +87,7 @@ func runCase(t *target, in []byte) (r caseResult) {
 	defer func() {
 		if p := recover(); p != nil {
 			r.panicked = true
+			r.inUse = strings.HasSuffix(phaseNow(), "use")
 			r.panicMsg = fmt.Sprint(p)
 			pcs := make([]uintptr, 128)
 			n := runtime.Callers(0, pcs)
@@ -114,6 +119,51 @@ func runCase(t *target, in []byte) (r caseResult) {
 	r.out = t.run(in)
 	return
 }
+
+// phase of the running case (written by the case goroutine, read by the
+// watchdog)
+var (
+	curPhase  atomic.Value // string
+	phaseBase string
+	phaseOut  *bufio.Writer
+)
+
+func phaseNow() string {
+	s, _ := curPhase.Load().(string)
+	return s
+}
+
+func resetPhase() { phaseBase = ""; curPhase.Store("") }
+
+// publishPhase is the worker's phaseHook.
+func publishPhase(p string) {
+	if p == "use" {
+		if phaseBase != "" {
+			p = phaseBase + ":use"
+		}
+	} else {
+		phaseBase = p
+	}
+	curPhase.Store(p)
+	if phaseOut != nil {
+		phaseOut.WriteString("P " + p + "\n")
+		phaseOut.Flush()
+	}
+}
+
+// maxStack: a runaway recursion ends in "fatal error: stack overflow" after
+// 16 MiB of stack (well under the worker's address-space cap, within a
+// fraction of a second) instead of Go's default of 1 GB, which the cap would
+// turn into an out-of-memory abort. The deepest legitimate inputs of the
+// universes (nesting depth 64) use a few KiB.
+const maxStack = 16 << 20
+
+// maxStackRecursive: the limit while a case of the "recursive declarations"
+// family runs (texts of at most 200 bytes, nesting depth <= 3: a legitimate
+// parse uses a few KiB). Most of its recursive cases end in a stack overflow
+// on the unchanged tree; the cost of one is proportional to the limit (the
+// stack is copied at every doubling).
+const maxStackRecursive = 2 << 20
 
 var (
 	curStart atomic.Int64 // unix nanos of the running case, 0 if none
@@ -273,6 +323,10 @@ func workerMain() {
 	w := bufio.NewWriterSize(os.Stdout, 1<<16)
 	fmt.Fprintf(w, "H %s\n", tableHash(gs))
 	w.Flush()
+	debug.SetMaxStack(maxStack)
+	phaseOut = w
+	phaseHook = publishPhase
+	resetPhase()
 	budget := timeBudget()
 	go watchdog(budget)
 	_, prof := takeProfile()
@@ -303,6 +357,11 @@ func workerMain() {
 			continue
 		}
 		g := gs[gid]
+		if g.kind == "recursive" {
+			debug.SetMaxStack(maxStackRecursive)
+		} else {
+			debug.SetMaxStack(maxStack)
+		}
 		for i := lo; i < hi && i < g.n; i++ {
 			in := g.input(i)
 			fmt.Fprintf(w, "B %d\n", i)
@@ -311,6 +370,7 @@ func workerMain() {
 			a0, m0 := ms.TotalAlloc, ms.Mallocs
 			curIdx.Store(int64(i))
 			curSeq.Add(1)
+			resetPhase()
 			t0 := time.Now()
 			curStart.Store(t0.UnixNano())
 			r := runCase(g.t, in)
@@ -319,10 +379,19 @@ func workerMain() {
 			runtime.ReadMemStats(&ms)
 			alloc := ms.TotalAlloc - a0
 			cls := ""
-			if r.panicked {
+			switch {
+			case r.panicked && r.inUse:
+				// the decoder accepted the input and its result cannot be used
+				cls = "unusable-result:panic:" + msgClass(r.panicMsg, 60)
+				fmt.Fprintf(w, "V %d unusable-result panic:%s:%s %d %d accepted_then_the_use_of_the_result_panicked:_%s\n", i, r.site, msgClass(r.panicMsg, 48), alloc, ns, msgClass(r.panicMsg, 200))
+			case r.panicked:
 				cls = "panic:" + msgClass(r.panicMsg, 60)
 				fmt.Fprintf(w, "V %d panic %s:%s %d %d %s\n", i, r.site, msgClass(r.panicMsg, 48), alloc, ns, msgClass(r.panicMsg, 200))
-			} else {
+			case r.out.accepted && r.out.unusable != "":
+				what := msgClass(r.out.unusable, 80)
+				cls = "unusable-result:" + what
+				fmt.Fprintf(w, "V %d unusable-result %s %d %d accepted_(nil_error)_but_the_returned_value_is_not_usable:_%s\n", i, what, alloc, ns, what)
+			default:
 				cls = outcomeClass(in, r.out)
 			}
 			if alloc > allocBase+allocPerByte*uint64(len(in)) {
@@ -338,9 +407,16 @@ func workerMain() {
 				fmt.Fprintf(w, "C %d %s\n", id, cls)
 			}
 			fmt.Fprintf(w, "E %d %d %d\n", alloc, ns, id)
-			if alloc > 16<<20 {
+			if alloc > 4<<20 {
 				// give big garbage back before the next case so that an innocent
-				// case cannot hit the address-space cap because of its predecessor
+				// case cannot hit the address-space cap because of its predecessors.
+				// The worker maps about 0.9 GiB at start (VmSize 930 MB measured,
+				// go1.23), so under the 1 GiB cap the heap can grow by one or two
+				// 64 MiB arenas only: a run of cases that each leave 8-12 MB of
+				// garbage (a legitimate string of up to MaxStringSize, then EOF) has
+				// been seen to kill a worker with 62 MB "in use" on a 12 MB request
+				// when the concurrent collector lagged behind (GOMAXPROCS=1); the
+				// case passed 5/5 alone
 				debug.FreeOSMemory()
 			}
 		}
